@@ -124,6 +124,9 @@ type Taint struct {
 	// OnWrite is called for every write instruction (Store, MapUpdate, copy dst, append base
 	// without exact capacity, mutator dst) with the taint of the written location.
 	OnWrite func(fn *ssa.Function, in ssa.Instruction, target PathSet, what string)
+	// GlobalsShared: everything reached through a package-level variable counts as part of the
+	// seeded region (used by the effect analysis: such memory is visible to every caller).
+	GlobalsShared bool
 	// OnGlobalStore is called when a tainted value is stored into a package-level variable.
 	OnGlobalStore func(fn *ssa.Function, in ssa.Instruction, g *ssa.Global)
 	OkOnly        bool // only success returns contribute to a summary's results
@@ -142,6 +145,7 @@ type TSummary struct {
 }
 
 type tctx struct {
+	globalsShared bool
 	fn    *ssa.Function
 	taint map[ssa.Value]PathSet // per root
 	ch    bool
@@ -211,6 +215,14 @@ func valuePath(v ssa.Value) (ssa.Value, string) {
 		case *ssa.Lookup:
 			comps = append(comps, "[]")
 			v = x.X
+		case *ssa.Extract:
+			// v, ok := m[k]: the value component is an element of the map
+			if lk, ok := x.Tuple.(*ssa.Lookup); ok && x.Index == 0 {
+				comps = append(comps, "[]")
+				v = lk.X
+				continue
+			}
+			return v, joinRev(comps)
 		case *ssa.UnOp:
 			if x.Op != token.MUL {
 				return v, joinRev(comps)
@@ -278,6 +290,10 @@ func (c *tctx) of(v ssa.Value) PathSet {
 	}
 	root, path := valuePath(v)
 	out := PathSet{}
+	if g, isG := root.(*ssa.Global); isG && c.globalsShared && g.Pkg != nil && IsLibPath(g.Pkg.Pkg.Path()) {
+		// memory reached through a package-level variable is shared between all calls
+		return PathSet{"*": true, "": true}
+	}
 	if s := c.taint[root]; s != nil {
 		out = s.Sub(path)
 		// an address inside a buffer that is itself the region is a pointer into the region
@@ -443,7 +459,7 @@ func (t *Taint) analyse(fn *ssa.Function, params, free []PathSet, depth int) *TS
 	t.active[key] = true
 	defer delete(t.active, key)
 	t.Funcs[fn] = true
-	c := &tctx{fn: fn, taint: map[ssa.Value]PathSet{}}
+	c := &tctx{fn: fn, taint: map[ssa.Value]PathSet{}, globalsShared: t.GlobalsShared}
 	for i, p := range fn.Params {
 		if i < len(params) && params[i] != nil {
 			c.taint[p] = params[i].Clone()
